@@ -26,7 +26,7 @@ CLAIMED = {
         "note": "Partial: clauses V1-V4. Memory::get's missing frame-id check is reported as a cross-reference only (no witness IR).",
     },
     "C11": {
-        "technique": "ownership-structure analysis: ADT field tables (order, types, derived impls), who-may-call / who-may-construct over all MIR call and aggregate sites, origin tracing of pointers baked into generated code",
+        "technique": "ownership-structure analysis: ADT field tables (drop order = declaration order: JIT memory is the last owning field), forward value-flow of every constructed wrapper / module data value on MIR (through constructors and their callers) into Arc::new, backward data-flow of every ModuleData field to the builder field it comes from, who-may-free / who-may-relinquish over all MIR call sites (reviewed sites, ManuallyDrop decided by the owner's Drop), alloc/dealloc layout agreement by data-flow",
         "level": "Decides the 'not before' direction structurally: what a handle owns, drop order, the single place JIT memory is freed, and that every absolute pointer in generated code points into module-owned storage. 'Exactly once over all drop histories' is Rust's ownership guarantee (trusted), not re-proved.",
         "note": "Close to whole for keep-alive structure; H6 public-constructor witnesses are in the thorough tier.",
     },
